@@ -73,6 +73,7 @@ def run(ctx: Ctx):
     ctx.section(check_idioms, ctx)
     ctx.section(c09.check_extension_ops, ctx, repo.cls("types.qtype.Qtype"))
     ctx.section(check_pipeline, ctx)
+    ctx.section(check_const_table, ctx)
 
 
 # ------------------------------------------------------------------------------------- DP-CLOSED
@@ -848,3 +849,84 @@ def check_modmask(ctx: Ctx):
             n += 1
             ctx.fail("SB-MODMASK", fi, f"`{norm(site)[:50]}`", f"`{norm(site)}` reduces a value with the all-ones mask as MODULUS: the largest value of that width ((1 << n) - 1) becomes 0; the modulus for n bits is 2**n (or use `& mask`)", site)
     ctx.ok("SB-MODMASK", None, "no value is reduced modulo an all-ones mask", f"{n} sites", construct="ast2ast")
+
+
+# ------------------------------------------------------------------------------------- constant table of the rewriter
+REWRITER = "ast2ast.astrewriter.ASTRewriter"
+ENVCLS = "ast2ast.env.Environment"
+
+
+def _env_methods_dropping_constant(ctx: Ctx):
+    """{method name: index (without self) of the parameter whose entry in self.constants is removed}"""
+    env = ctx.repo.cls(ENVCLS)
+    out = {}
+    for name, m in env.methods.items():
+        ps = m.params[1:] if m.has_self else m.params
+        for n in ast.walk(m.node):
+            key = None
+            if isinstance(n, ast.Call) and isinstance(n.func, ast.Attribute) and n.func.attr == "pop" and norm(n.func.value) == "self.constants" and n.args:
+                key = n.args[0]
+            elif isinstance(n, ast.Delete):
+                for t in n.targets:
+                    if isinstance(t, ast.Subscript) and norm(t.value) == "self.constants":
+                        key = t.slice
+            if key is not None and isinstance(key, ast.Name) and key.id in ps:
+                out[name] = ps.index(key.id)
+    return out
+
+
+def check_const_table(ctx: Ctx):
+    """The rewriter records `x = <literal>` in Environment.constants and later substitutes the recorded literal for
+    reads of x (list indices, unrolled iterables).  That is only the program's meaning while x still holds that
+    literal: (DP-STALE) every re-binding of x to something else must end the entry; and, because branch bodies are
+    visited unconditionally, (DP-STALE/if) a consumer that turns a recorded scalar into a literal node needs
+    visit_If to end the entries of the names assigned under the condition."""
+    rw = ctx.repo.cls(REWRITER)
+    va = rw.methods.get("visit_Assign")
+    if va is None:
+        raise AnchorError(REWRITER + ".visit_Assign", "not found")
+    drops = _env_methods_dropping_constant(ctx)
+    tnames = [n.targets[0].id for n in walk_no_nested(va.node) if isinstance(n, ast.Assign) and isinstance(n.targets[0], ast.Name) and norm(n.value).replace(" ", "") == "node.targets[0].id"]
+    if len(tnames) != 1:
+        raise AnchorError(va.short, "the assigned name is not bound as `<t> = node.targets[0].id`")
+    t = tnames[0]
+    chains = [s_ for s_ in va.body if isinstance(s_, ast.If) and "node.value" in norm(s_.test) and any(isinstance(c.func, ast.Attribute) and norm(c.func.value) == "self.env" for c in q.calls(s_))]
+    if len(chains) != 1:
+        raise AnchorError(va.short, f"{len(chains)} top-level if-chains classify node.value and update the environment: outside the tables")
+    chain, els = q.if_chain(chains[0])
+    branches = [(norm(test), body) for test, body in chain] + [("else", els)]
+    n_ok = 0
+    for label, body in branches:
+        envcalls = [c for s_ in body for c in q.calls(s_) if isinstance(c.func, ast.Attribute) and norm(c.func.value) == "self.env"]
+        sets = [c for c in envcalls if c.func.attr == "set_constant" and c.args and norm(c.args[0]) == t]
+        ends = [c for c in envcalls if c.func.attr in drops and len(c.args) > drops[c.func.attr] and norm(c.args[drops[c.func.attr]]) == t]
+        direct = [n for s_ in body for n in ast.walk(s_) if isinstance(n, ast.Call) and isinstance(n.func, ast.Attribute) and n.func.attr == "pop" and norm(n.func.value) == "self.env.constants" and n.args and norm(n.args[0]) == t]
+        ok = bool(sets or ends or direct)
+        n_ok += ok
+        ctx.check(ok, "DP-STALE", va, f"re-binding under `{label[:60]}` sets or ends the name's constant", ", ".join(norm(c)[:50] for c in (sets + ends + direct)), f"the branch `{label[:80]}` re-binds `{t}` ({', '.join(norm(c) for c in envcalls) or 'no environment update'}) but leaves an earlier entry of Environment.constants in place: `l = [a, b]; l = t; l[i[0]]` then selects from [a, b]", body[0] if body else chains[0])
+    if len(branches) < 3:
+        raise AnchorError(va.short, "fewer than 3 value kinds classified")
+    # consumers that turn a recorded scalar into a literal node
+    wrap = []
+    for m in rw.methods.values():
+        gets = {}
+        for n in walk_no_nested(m.node):
+            if isinstance(n, ast.Assign) and isinstance(n.targets[0], ast.Name) and any(isinstance(c.func, ast.Attribute) and c.func.attr == "get_constant" for c in q.calls(n.value)):
+                gets[n.targets[0].id] = n
+        for c in q.calls(m.node):
+            if (dotted(c.func) or "").endswith("Constant"):
+                v = q.arg(c, 0, "value")
+                if v is None:
+                    continue
+                if any(isinstance(x, ast.Call) and isinstance(x.func, ast.Attribute) and x.func.attr == "get_constant" for x in ast.walk(v)) or (q.names_in(v) & set(gets)):
+                    wrap.append((m, c))
+    vi = rw.methods.get("visit_If")
+    if vi is None:
+        raise AnchorError(REWRITER + ".visit_If", "not found")
+    ends_in_if = [c for c in q.calls(vi.node) if isinstance(c.func, ast.Attribute) and ((norm(c.func.value) == "self.env" and (c.func.attr in drops or c.func.attr == "remove")) or (norm(c.func.value) == "self.env.constants" and c.func.attr in ("pop", "clear")))]
+    saves = [n for n in ast.walk(vi.node) if isinstance(n, ast.Assign) and "self.env.constants" in norm(n)]
+    if wrap:
+        m, c = wrap[0]
+        ctx.check(bool(ends_in_if or saves), "DP-STALE", m, "a recorded scalar is spliced in as a literal only if conditional assignments end the record", f"visit_If: {[norm(x)[:40] for x in ends_in_if + saves]}", f"`{norm(c)}` substitutes the literal recorded for a name, but visit_If visits both branch bodies unconditionally and never ends the records they make: after `i = 1` / `if c: i = 2` the table says i == 2 whatever c is, so `l[i]` becomes l[2]", c)
+    else:
+        ctx.ok("DP-STALE", rw.methods["visit_Subscript"], "no consumer turns a recorded scalar into a literal node", "conditional records cannot reach the translation as literals", nontrivial=False)
